@@ -37,14 +37,15 @@ TABLE = [
     (r"^UnsealedState::apply_tip_909\|unwrap\|unwrap\|SmtMapping::get\(\$1\.pools, PoolKey::new\(Denom::(Mel|Erg)\{\}, Denom::Sym\{\}\)\)", "inv", "create_builtins dominates in seal (C16.R1/R2); ERG/SYM exists because TIP-902 (180000) activates before TIP-909 (950000) and both use the same activation rule"),
     (r"^UnsealedState::collect_proposer_action_fee\|extern\|<melstructs::CoinValue as std::ops::Add>::add", "assume", "fee_pool/65536 + tips ≤ MEL supply ≤ 2^127"),
     (r"^UnsealedState::collect_proposer_action_fee\|extern\|<melstructs::CoinValue as std::ops::SubAssign>::sub_assign\|self\.fee_pool,Shr\(self\.fee_pool\.0, 16\)", "inv", "x − (x >> 16) cannot underflow"),
-    (r"^applytx::check_tx_validity\|(extern\|<&u128 as std::ops::Add<u128>>::add|assert\|Overflow\(Add\))\|Option::unwrap_or\(HashMap::get\(in_coins, ", "assume", "inputs are distinct existing coins (C02.R3) and the supply of a denomination is ≤ 2^127 (the site the `overflow_coins` test exercises beyond the precondition)"),
+    (r"^applytx::check_tx_validity\|(extern\|<&u128 as std::ops::Add<u128>>::add|assert\|Overflow\(Add\))\|(Option::unwrap_or\(HashMap::get|Entry::or_insert\(HashMap::entry)\(in_coins, ", "assume", "inputs are distinct existing coins (C02.R3) and the supply of a denomination is ≤ 2^127 (the site the `overflow_coins` test exercises beyond the precondition)"),
     (r"^applytx::compute_doscmint_speed\|assert\|DivisionByZero\|", "inv", "called after this.history.get(coin.height)? succeeded (C18.R1): history holds only past headers, so coin.height < this.height"),
     (r"^applytx::compute_doscmint_speed\|extern\|<melstructs::BlockHeight as std::ops::Sub>::sub\|\$3,\$4", "inv", "coin.height < this.height (same reason)"),
     (r"^applytx::compute_doscmint_speed\|(assert\|Overflow\(Mul\)|extern\|pow)\|", "assume", "reached only after Proof::verify returned true, which in melpow 0.1.2 requires difficulty ≤ 64 (larger values panic inside verify: finding D11)"),
     (r"^melmint::calculate_reward\|extern\|pow\|2,\$3", "assume", "same: difficulty ≤ 64 once verification succeeded"),
     (r"^applytx::extract_input_coins\|unwrap\|unwrap\|HashMap::get\(ParallelIterator::collect", "inv", "the cache is built from exactly the inputs that are looked up (C02.R2 cache closures)"),
-    (r"^applytx::proof_is_tip910\|extern\|verify\|.*LegacyMelPowHash", "finding", "D10/D11"),
-    (r"^applytx::proof_is_tip910\|extern\|verify\|.*Tip910MelPowHash", "finding", "D10/D11"),
+    # melpow::Proof::verify: identified by callee and hasher, not by the function that happens to host the call (see `_verify_finding`)
+    (r"^[A-Za-z_0-9:]+\|extern\|verify\|.*LegacyMelPowHash", "finding", "D10/D11"),
+    (r"^[A-Za-z_0-9:]+\|extern\|verify\|.*Tip910MelPowHash", "finding", "D10/D11"),
     (r"^applytx::validate_and_get_doscmint_speed\|assert\|Overflow\(Sub\)\|\$1\.height\.0,1", "inv", "the history lookup at the coin's height succeeded before, so height ≥ 1"),
     (r"^applytx::validate_and_get_doscmint_speed\|extern\|<melstructs::BlockHeight as std::ops::Sub>::sub\|\$1\.height,", "inv", "a coin is never newer than the state applying the batch (C02.R4: height = this.height)"),
     (r"^applytx::create_next_state\|extern\|base_fee\|", "weights-capped", "every weight handed to base_fee is capped at u128::MAX / (covenants + 1), so the sum inside base_fee cannot overflow (C05.R1, re-evaluated here)"),
@@ -139,6 +140,7 @@ def r1_inventory(ctx):
     counts = {}
     seen = set()
     used = set()
+    nverify = {}
     for s in sites:
         if s.exp:
             counts["logging"] = counts.get("logging", 0) + 1
@@ -170,7 +172,11 @@ def r1_inventory(ctx):
             continue
         seen.add(key)
         if verdict == "finding":
-            r.violation("finding/" + key[:150], "reachable panic in the trusted base without a guard: %s (%s)" % (s.what, why), s.where())
+            hs = sig(s.operands[-1]).split("::")[0] if s.operands else "?"
+            nverify[hs] = nverify.get(hs, 0) + 1
+            # the n-th unguarded verification with this hasher: the first one is the recorded finding wherever the call is hosted,
+            # a further one is a new site
+            r.violation("finding/melpow::Proof::verify|%s|#%d" % (hs, nverify[hs]), "reachable panic in the trusted base without a guard: %s (%s)" % (s.what, why), s.where())
         elif verdict == "selected":
             ok = _selected_ok(prog, s)
             if ok is None:
